@@ -13,6 +13,7 @@ CONSTANTS
   BkRechecksLock = TRUE
   AllowConcurrent = FALSE
   GcStopsOnUnreadableHunk = TRUE
+  GcBandsBeforeBlocks = TRUE
   Hash <- HashT
 INVARIANT Report
 CHECK_DEADLOCK FALSE
